@@ -328,7 +328,20 @@ def install(intr_cls):
                 outs.append((e, None))
         return outs
 
-    intr_cls.symbolic_for_ext = symbolic_for_ext
+    def guarded(fn):
+        """A sidecar invariant that does not FIT the loop it is keyed to (the function's loops were restructured: a
+        Skolem constant of another loop is missing, a role-named local is gone ...) is not a verdict and not a crash: the
+        instance leaves the executed subset (-> bounded stand-in)."""
+        def run(self, eng, s, st, *a):
+            try:
+                return fn(self, eng, s, st, *a)
+            except (KeyError, AttributeError, IndexError, TypeError) as e:
+                fi = st.frames[-1] if st.frames else None
+                raise Unsupported(f"the sidecar invariant does not fit a loop of {getattr(fi, 'qualname', '?')} "
+                                  f"({type(e).__name__}: {e})")
+        return run
+
+    intr_cls.symbolic_for_ext = guarded(symbolic_for_ext)
 
     def symbolic_while_ext(self, eng, s, st):
         """`while <test>: body` with a sidecar invariant (partial correctness; termination is NOT verified):
@@ -390,7 +403,7 @@ def install(intr_cls):
                             outs.append((y, o2))
         return outs
 
-    intr_cls.symbolic_while_ext = symbolic_while_ext
+    intr_cls.symbolic_while_ext = guarded(symbolic_while_ext)
 
 
 def exit_indices(L):
